@@ -107,3 +107,66 @@ Theorem C04_unpark_edge :
     forall j, j <> id -> caus_of e' j = caus_of e j.
 Proof. exact threads_unpark_transfers. Qed.
 Print Assumptions C04_unpark_edge.
+
+(* ==== appended by tools/mkprops.py (APPEND table) ==== *)
+
+Require Import LV.Base LV.VV LV.VVFacts LV.Path LV.PathSpec LV.PathTerm LV.PathDistinct LV.PathApi LV.Prog LV.Objects LV.Exec LV.Atomic LV.Ops LV.Check LV.SyncFacts LV.ExecFacts LV.SyncMono LV.ClockFacts.
+
+(* Well-formedness of the vector clocks over whole runs (ClockFacts.v) *)
+(* in every state of every run nobody knows more about a thread than the thread itself: every thread clock, released view, object view, store view, access stamp and the SeqCst clock is bounded componentwise by the owners' own components *)
+Theorem C04_run_clock_wf :
+  forall (fuel : nat) (e : exec), clock_wf e -> clock_wf (fst (run fuel e)).
+Proof. exact run_clock_wf. Qed.
+Print Assumptions C04_run_clock_wf.
+
+(* in particular for thread clocks *)
+Theorem C04_clock_wf_caus :
+  forall (e : exec) (t u : nat),
+       clock_wf e -> vv_get (caus_of e t) u <= vv_get (caus_of e u) u.
+Proof. exact clock_wf_caus. Qed.
+Print Assumptions C04_clock_wf_caus.
+
+(* every tracked access (cell read/write, atomic load/store/RMW, fence) strictly advances the accessing thread's own component first: two accesses of one thread never carry the same stamp *)
+Theorem C04_own_component_increases :
+  forall (e : exec) (me : nat) (m : micro) (e' : exec) (t : thread),
+       is_tracked m = true ->
+       exec_micro e me m = MOk e' ->
+       get_thread e me = Some t ->
+       me < length (t_caus t) -> vv_get (caus_of e me) me < vv_get (caus_of e' me) me.
+Proof. exact own_component_increases. Qed.
+Print Assumptions C04_own_component_increases.
+
+(* the stamp a cell records for a write is the writer's own component at that moment *)
+Theorem C04_cell_write_stamp :
+  forall (e : exec) (me u : nat) (v : N) (e' : exec),
+       clock_wf e ->
+       exec_micro e me (MCellWrite u v) = MOk e' ->
+       exists s' : cell_state,
+         get_cell e' u = Some s' /\
+         vv_get (ce_write s') me = vv_get (caus_of e' me) me /\
+         caus_of e' me = caus_of (causality_inc e me) me.
+Proof. exact cell_write_stamp. Qed.
+Print Assumptions C04_cell_write_stamp.
+
+(* a thread passes the race test against an access of thread t only if its clock has acquired t's component of that access *)
+Theorem C04_seen_only_if_acquired :
+  forall (e : exec) (b t n : nat),
+       clock_wf e -> n <= vv_get (caus_of e b) t -> n <= vv_get (caus_of e t) t.
+Proof. exact seen_only_if_acquired. Qed.
+Print Assumptions C04_seen_only_if_acquired.
+
+(* the write check in terms of stamps *)
+Theorem C04_cell_write_allowed_iff :
+  forall (s : cell_state) (c : vv),
+       (exists s1 : cell_state, cell_track_write s c = inl s1) <->
+       vle (ce_write s) c /\ vle (ce_read s) c.
+Proof. exact cell_write_allowed_iff. Qed.
+Print Assumptions C04_cell_write_allowed_iff.
+
+(* observed: unsync_load / with_mut do not advance the clock (they are not synchronisation operations) *)
+Theorem C04_unsync_access_keeps_clock :
+  forall (e : exec) (me a : nat) (e' : exec),
+       exec_micro e me (MUnsyncLoad a) = MOk e' -> caus_of e' me = caus_of e me.
+Proof. exact unsync_access_keeps_clock. Qed.
+Print Assumptions C04_unsync_access_keeps_clock.
+
